@@ -7,7 +7,7 @@ import subprocess
 import time
 
 from . import extract as X
-from .api import Fn, Copy, Raw, Group, Unit, ByteConst, TAG_RE, GTAG_RE
+from .api import Fn, Copy, Raw, Group, Unit, ByteConst, Lifted, TAG_RE, GTAG_RE
 
 HERE = os.path.dirname(os.path.abspath(__file__))
 VERIF = os.path.dirname(HERE)
@@ -226,6 +226,55 @@ def _emit_copy(gen, root, cp):
     gen.copies.append(dict(file=cp.file, regex=cp.regex, repo_line=line, sha=X.sha(text), rules=fired))
 
 
+def _emit_lifted(gen, root, lf, canary_false=False):
+    src = _source(root, lf.file)
+    d = src.find_fn(lf.scope, lf.name)
+    body = d['body']
+    msk = X.mask(body)
+    hits = [m for m in re.finditer(r'&mut\s*\|[^|]*\|\s*\{', msk)]
+    if len(hits) <= lf.nth:
+        raise X.ExtractError('ANCHOR-LOST lifted closure %d of %s::%s (found %d closures)' % (lf.nth, lf.file, lf.name, len(hits)))
+    m = hits[lf.nth]
+    ob = m.end() - 1
+    cb = X.match_close(msk, ob)
+    ctext = body[ob:cb + 1]
+    line = d['body_line'] + body.count('\n', 0, ob)
+    fired = ['R17 closure %d of %s lifted into a function' % (lf.nth, lf.name)]
+    ctext = X.rewrite_body(ctext, fired)
+    # the continuation call must be the closure's final expression
+    cm = re.search(r'\b%s\(([^;]*?)\)\s*\}\s*$' % re.escape(lf.cont), ctext, re.S)
+    if not cm:
+        raise X.ExtractError('ANCHOR-LOST lifted closure %d of %s: final expression is not a call of %s' % (lf.nth, lf.name, lf.cont))
+    ctext = ctext[:cm.start()] + X._pad('Ok((%s))' % cm.group(1), ctext[cm.start():cm.end() - 1]) + '}'
+    fired.append('R17 continuation %s(args) -> Ok((args))' % lf.cont)
+    ctext = X.apply_splices(ctext, lf.splices, fired, lf.key)
+    key = '%s::%s::%s%s' % (lf.file, lf.scope or '', lf.key, '#canary' if canary_false else '')
+    sig = lf.sig
+    if canary_false:
+        sig = re.sub(r'\bfn\s+(\w+)', r'fn \1__canary', sig, count=1)
+    start = len(gen.lines) + 1
+    o = (key, lf.file, line, True)
+    _emit(gen, sig, o)
+    if lf.requires:
+        _emit(gen, '    requires', o)
+        for c in lf.requires:
+            _emit_clause(gen, c, o)
+    ens = list(lf.ensures) + (['false // [canary]'] if canary_false else [])
+    if ens:
+        _emit(gen, '    ensures', o)
+        for c in ens:
+            _emit_clause(gen, c, o)
+    for i, ln in enumerate(ctext.split('\n')):
+        for j, p in enumerate(ln.split(X.SEP)):
+            gen.lines.append(p)
+            gen.origin.append((key, lf.file, line + i, j > 0))
+    end = len(gen.lines)
+    gen.fns[key] = dict(file=lf.file, scope=lf.scope, name=lf.key, repo_line=line, gen_start=start, gen_end=end,
+                        sha_repo=X.sha(body[ob:cb + 1]), sha_emitted=X.sha('\n'.join(gen.lines[start - 1:end])),
+                        rules=fired, props=lf.props, canary=(lf.canary and canary_false), external_body=False, gtag_props={},
+                        n_requires=len(lf.requires), n_ensures=len(lf.ensures))
+
+
 def _emit_byteconst(gen, root, bc):
     src = _source(root, bc.file)
     m = re.search(r'(?m)^\s*(?:pub\s+)?const\s+%s\s*:\s*&(?:\'static\s+)?\[u8\]\s*=\s*b"' % re.escape(bc.name), src.src)
@@ -265,6 +314,10 @@ def generate(unit, root, canary=False):
                 _emit_copy(gen, root, it)
             elif isinstance(it, ByteConst):
                 _emit_byteconst(gen, root, it)
+            elif isinstance(it, Lifted):
+                _emit_lifted(gen, root, it)
+                if canary and it.canary:
+                    _emit_lifted(gen, root, it, canary_false=True)
             elif isinstance(it, Group):
                 _emit(gen, it.header)
                 walk(it.items)
